@@ -12,10 +12,27 @@ from simkit import driver
 
 
 def _scratch_copy():
-    d = tempfile.mkdtemp(prefix="verif-mut-", dir="/tmp")
+    """<scratch>/code/pytato is the copy (and <scratch>/code the PYTHONPATH
+    entry); outputs go to <scratch>/out.  Nothing may be created inside the
+    PYTHONPATH directory while a check runs: importlib re-scans a path entry
+    whose mtime changed, at a moment that depends on timing, and the extra
+    allocations make object addresses in the fleet interpreters -- and with
+    them address-dependent findings -- irreproducible (seen with seeded change
+    C04-c04e)."""
+    top = tempfile.mkdtemp(prefix="verif-mut-", dir="/tmp")
+    d = os.path.join(top, "code")
+    os.makedirs(os.path.join(top, "out"))
     shutil.copytree("/repo/pytato", os.path.join(d, "pytato"),
                     ignore=shutil.ignore_patterns("__pycache__"))
     return d
+
+
+def _out_dir(d, name):
+    return os.path.join(os.path.dirname(d), "out", name)
+
+
+def _remove_scratch(d):
+    shutil.rmtree(os.path.dirname(d), ignore_errors=True)
 
 
 def run_mutant(m, quick_args=()):
@@ -37,8 +54,8 @@ def run_mutant(m, quick_args=()):
         env.pop("VERIF_CHILD", None)
         env["PYTHONPATH"] = d
         env["VERIF_PYTATO_ROOT"] = d
-        env["VERIF_EVIDENCE_DIR"] = os.path.join(d, "evidence")
-        env["VERIF_REPLAY_DIR"] = os.path.join(d, "replays")
+        env["VERIF_EVIDENCE_DIR"] = _out_dir(d, "evidence")
+        env["VERIF_REPLAY_DIR"] = _out_dir(d, "replays")
         t0 = time.monotonic()
         r = subprocess.run(
             [os.path.join(driver.VERIF_DIR, "check"), m["prop"], "--tier",
@@ -54,7 +71,7 @@ def run_mutant(m, quick_args=()):
             return "survived", r.stdout[-300:], wall
         return "harness-error", (r.stdout[-800:] + r.stderr[-1500:]), wall
     finally:
-        shutil.rmtree(d, ignore_errors=True)
+        _remove_scratch(d)
 
 
 def run_patch(patch, prop):
@@ -68,8 +85,8 @@ def run_patch(patch, prop):
         env.pop("VERIF_CHILD", None)
         env["PYTHONPATH"] = d
         env["VERIF_PYTATO_ROOT"] = d
-        env["VERIF_EVIDENCE_DIR"] = os.path.join(d, "evidence")
-        env["VERIF_REPLAY_DIR"] = os.path.join(d, "replays")
+        env["VERIF_EVIDENCE_DIR"] = _out_dir(d, "evidence")
+        env["VERIF_REPLAY_DIR"] = _out_dir(d, "replays")
         t0 = time.monotonic()
         r = subprocess.run(
             [os.path.join(driver.VERIF_DIR, "check"), prop, "--tier", "quick"],
@@ -84,7 +101,7 @@ def run_patch(patch, prop):
             return "survived", r.stdout[-300:], wall
         return "harness-error", (r.stdout[-800:] + r.stderr[-1500:]), wall
     finally:
-        shutil.rmtree(d, ignore_errors=True)
+        _remove_scratch(d)
 
 
 def main(what, args):
